@@ -101,6 +101,16 @@ def scale(kind, k):
         return [tuple(i != j for j in range(k)) for i in range(k)]
     if kind == 'ordinal':       # chain
         return [tuple(i <= j for j in range(k)) for i in range(k)]
+    if kind == 'ordinal-rev':   # chain, rows growing: row i has the first i+1 properties
+        return [tuple(j <= i for j in range(k)) for i in range(k)]
+    if kind == 'blocks':        # k objects in two equal blocks, one property each, one shared
+        h = k // 2
+        return [(i < h, i >= h, i % 3 == 0) for i in range(k)]
+    if kind == 'contranominal+full':   # boolean lattice with a non-empty bottom extent
+        return [tuple(i != j for j in range(k)) for i in range(k)] + [(True,) * k]
+    if kind == 'chainproduct':  # product of two chains of length k: (k+1)^2 concepts
+        o = [tuple(i <= j for j in range(k)) for i in range(k)]
+        return [r + (True,) * k for r in o] + [(True,) * k + r for r in o]
     if kind == 'interordinal':  # k x 2k
         return [tuple(i <= j for j in range(k)) + tuple(i >= j for j in range(k))
                 for i in range(k)]
@@ -151,6 +161,126 @@ def f_tables_range(k, d, kind, start, stop):
     return itertools.islice(gen, start, stop)
 
 
+# ---------------------------------------------------------------- stratum G (structured, bigger)
+
+def circulant(k, pattern):
+    """k x k table whose row i is the bit pattern rotated by i."""
+    return [tuple(bool((pattern >> ((j - i) % k)) & 1) for j in range(k)) for i in range(k)]
+
+
+def toeplitz(k, pattern):
+    """k x k table constant along diagonals: cell (i, j) = bit (j - i + k - 1) of pattern."""
+    return [tuple(bool((pattern >> (j - i + k - 1)) & 1) for j in range(k)) for i in range(k)]
+
+
+TINY_SHAPES = ((1, 1), (1, 2), (2, 1), (2, 2))
+
+
+def tiny_tables():
+    out = []
+    for n, m in TINY_SHAPES:
+        for code in range(1 << (n * m)):
+            out.append(rows_of(n, m, code))
+    return out
+
+
+def compose(parts, fill):
+    """Block-diagonal composition of tables; cells outside the blocks are ``fill``
+    (False: horizontal sum of the lattices, True: the blocks sit on a full background)."""
+    width = sum(len(p[0]) for p in parts)
+    rows, off = [], 0
+    for p in parts:
+        w = len(p[0])
+        for r in p:
+            rows.append((fill,) * off + tuple(r) + (fill,) * (width - off - w))
+        off += w
+    return rows
+
+
+def ksubsets(k, r):
+    """One object per r-subset of k properties (an antichain of rows)."""
+    return [tuple(j in sub for j in range(k)) for sub in itertools.combinations(range(k), r)]
+
+
+KSUB = ((4, 2), (5, 2), (5, 3), (6, 2), (6, 3))
+
+
+def ksub_tables():
+    """Subset contexts, each with every single cell flipped, and all transposes;
+    plus every 5x4 table whose rows are 5 distinct 2-subsets of 4 properties in every
+    order (a concept with more upper neighbours than properties), and transposes."""
+    out = []
+    for k, r in KSUB:
+        base = ksubsets(k, r)
+        n, m = len(base), k
+        variants = [base]
+        for i in range(n):
+            for j in range(m):
+                v = [list(row) for row in base]
+                v[i][j] = not v[i][j]
+                variants.append([tuple(row) for row in v])
+        for v in variants:
+            out.append(v)
+            out.append([tuple(row[j] for row in v) for j in range(m)])
+    pairs = ksubsets(4, 2)
+    for sel in itertools.permutations(range(6), 5):
+        v = [pairs[i] for i in sel]
+        out.append(v)
+        out.append([tuple(row[j] for row in v) for j in range(4)])
+    return out
+
+
+_KSUB_CACHE = []
+
+
+def g_shards(tier):
+    """Structured families enumerated completely: all circulant tables, all Toeplitz
+    tables, all block compositions of 2 (quick) / 3 (thorough) tiny tables."""
+    out = []
+    ks = (5, 6, 7) if tier == 'quick' else (5, 6, 7, 8)
+    for k in ks:
+        total = 1 << k
+        for start in range(0, total, 32):
+            out.append(('G', 'circulant', k, start, min(total, start + 32)))
+    for k in ((5,) if tier == 'quick' else (5, 6)):
+        total = 1 << (2 * k - 1)
+        for start in range(0, total, 64):
+            out.append(('G', 'toeplitz', k, start, min(total, start + 64)))
+    if not _KSUB_CACHE:
+        _KSUB_CACHE.extend(ksub_tables())
+    total = len(_KSUB_CACHE)
+    for start in range(0, total, 64):
+        out.append(('G', 'ksub', 0, start, min(total, start + 64)))
+    t = len(tiny_tables())
+    arity = 2 if tier == 'quick' else 3
+    total = t ** arity * 2
+    for start in range(0, total, 256):
+        out.append(('G', 'compose', arity, start, min(total, start + 256)))
+    return out
+
+
+def g_rows(kind, k, idx):
+    if kind == 'circulant':
+        return circulant(k, idx)
+    if kind == 'toeplitz':
+        return toeplitz(k, idx)
+    if kind == 'ksub':
+        if not _KSUB_CACHE:
+            _KSUB_CACHE.extend(ksub_tables())
+        return _KSUB_CACHE[idx]
+    if kind == 'compose':
+        tiny = tiny_tables()
+        t = len(tiny)
+        fill = bool(idx & 1)
+        idx >>= 1
+        parts = []
+        for _ in range(k):
+            parts.append(tiny[idx % t])
+            idx //= t
+        return compose(parts, fill)
+    raise ValueError(kind)
+
+
 # ---------------------------------------------------------------- stratum P
 
 P_OFFSETS = (0, 1, 29, 30, 31, 59, 60, 61, 63, 64, 65, 127)
@@ -167,6 +297,14 @@ def embed(n, m, code, off, pad, axis):
     so that it lands beyond the 30/60/64-bit boundaries.
     """
     t = rows_of(n, m, code)
+    if axis in ('obj-mid', 'prop-mid'):
+        # the padding sits between the first row/column of t and the rest
+        if axis == 'prop-mid':
+            def padc(row):
+                return {'blank': (False,), 'cross': (True,), 'copy': (row[0],)}[pad] * off
+            return [r[:1] + padc(r) + r[1:] for r in t]
+        prow = {'blank': (False,) * m, 'cross': (True,) * m, 'copy': t[0]}[pad]
+        return t[:1] + [prow] * off + t[1:]
     po = off if axis in ('obj', 'both') else 0
     pp = off if axis in ('prop', 'both') else 0
     # columns first: each row of t gets pp padding cells in front
@@ -186,10 +324,11 @@ def embed(n, m, code, off, pad, axis):
     return [prow] * po + wide
 
 
-def p_shards(bound=6, offsets=P_OFFSETS, pads=P_PADS, axes=P_AXES):
+def p_shards(bound=6, offsets=P_OFFSETS, pads=P_PADS, axes=P_AXES, extra_shapes=()):
     """Shards ('P', n, m, off, pad, axis) – each covers all 2^(n*m) tables."""
     out = []
-    for n, m in shapes(bound):
+    base = list(shapes(bound)) if bound else []
+    for n, m in base + [s for s in extra_shapes if s not in base]:
         for off in offsets:
             for pad in pads:
                 for axis in axes:
@@ -223,6 +362,18 @@ def w_shards(sizes=W_SIZES, kinds=('nominal', 'ordinal')):
     return [('W', kind, k) for k in sizes for kind in kinds]
 
 
+def big_shards(tier):
+    """Big lattices / wide extents as whole tables (one shard each)."""
+    sh = [('W', 'nominal', 9), ('W', 'nominal', 31), ('W', 'ordinal', 40), ('W', 'ordinal-rev', 40),
+          ('W', 'nominal', 65), ('W', 'ordinal-rev', 65), ('W', 'blocks', 600),
+          ('W', 'contranominal+full', 9), ('W', 'chainproduct', 12)]
+    if tier == 'thorough':
+        sh += [('W', 'nominal', 130), ('W', 'ordinal', 130), ('W', 'ordinal-rev', 130),
+               ('W', 'contranominal', 10), ('W', 'contranominal', 11), ('W', 'chainproduct', 19),
+               ('W', 'chainproduct', 30), ('W', 'contranominal+full', 10)]
+    return sh
+
+
 # ---------------------------------------------------------------- expansion
 
 def tables_of_shard(shard):
@@ -241,6 +392,11 @@ def tables_of_shard(shard):
         for code in range(1 << (n * m)):
             rows = embed(n, m, code, off, pad, axis)
             yield len(rows), len(rows[0]), rows, ('P', n, m, code, off, pad, axis)
+    elif kind == 'G':
+        _, fam, k, start, stop = shard
+        for idx in range(start, stop):
+            rows = g_rows(fam, k, idx)
+            yield len(rows), len(rows[0]), rows, ('G', fam, k, idx)
     elif kind == 'W':  # whole wide scales
         _, sk, k = shard
         rows = scale(sk, k)
@@ -264,6 +420,8 @@ def rows_from_tag(tag):
     if kind == 'P':
         _, n, m, code, off, pad, axis = tag
         return embed(n, m, code, off, pad, axis)
+    if kind == 'G':
+        return g_rows(tag[1], tag[2], tag[3])
     if kind == 'W':
         return scale(tag[1], tag[2])
     if kind == 'R':  # raw rows
